@@ -482,7 +482,12 @@ def run(repo, res, tier):
         # ---------------- EQ-E
         if eq is not None:
             for n in walk_no_nested(eq):
-                if isinstance(n, ast.Call) and call_name(n) in ("list", "tuple") and len(n.args) == 1:
+                if isinstance(n, ast.Call) and call_name(n) in ("list", "tuple") and len(n.args) == 1 and isinstance(n.args[0], ast.Call) and isinstance(n.args[0].func, ast.Attribute) and n.args[0].func.attr in ("values", "keys", "items") and not n.args[0].args:
+                    # the view of a mapping turned into a sequence: its order is the insertion order of the mapping
+                    ch = attr_chain(n.args[0].func.value)
+                    if ch and ch[0] in (eq.args.args[0].arg, eq.args.args[1].arg):
+                        res.check("EQ-E", "%s.__eq__: %s" % (cname, norm(n)), False, mod, n, norm(n), "the entries of a mapping are compared as a sequence: two objects holding the same entries inserted in a different order compare unequal (and hash equal)")
+                elif isinstance(n, ast.Call) and call_name(n) in ("list", "tuple") and len(n.args) == 1:
                     ch = attr_chain(n.args[0])
                     if ch and len(ch) == 2 and ch[0] in (eq.args.args[0].arg, eq.args.args[1].arg):
                         kinds = declared_kinds(repo, cls, ch[1])
